@@ -263,7 +263,7 @@ func TestVerifC17Tx(t *testing.T) {
 	bound := run.Pick(3, 4)
 	res.Rule = fmt.Sprintf("case = one complete schedule of the real Transport.send / connectAndProcess / processMessages goroutines plus a NodeHost thread over a recording connection; every schedule with <= %d deviations from the default schedule is executed; non-trivial = a connection worker was started and the schedule has a deviation", bound)
 	res.Assumptions = []string{
-		"schedx: scheduling points at every sync/atomic operation and channel statement of transport.go and inside GetConnection / SendMessageBatch of the recording network; the idle timer fires only where the scenario says so; a select with several ready cases takes the first in source order",
+		"schedx: scheduling points at every sync/atomic operation and channel statement of transport.go and inside GetConnection / SendMessageBatch of the recording network; the idle timer fires only where the scenario says so; when several cases of a select are ready the choice is part of the schedule",
 		"healthy connections only (the circuit breaker's real-time back-off is not driven)",
 	}
 	var rp txReplay
